@@ -10,12 +10,14 @@ spec:      spec/PkgRelation.tla        structures (conjunction of alternatives o
 model checking (closed): one focus atom ranging over ALL 3612 combinations of the optional parts
            (2 x {none, 5 operators} x arch lists of 1..2 plain/negated entries x formulas of 1..2
            groups of 1..2 plain/negated terms) at every position of every list shape (quick: 1..2
-           conjuncts x 1..2 alternatives, context atoms bare names, 54 171 structures; thorough:
+           conjuncts x 1..2 alternatives with at most 3 atoms, context atoms bare names, 39 727
+           structures; thorough:
            1..3 x 1..2, context atoms bare / with every part, 368 350 structures); in every state
            Inverse, NoWarning, Stable, TokensWellFormed.
            Spec-level negative controls, re-run in every check (each must make TLC report the named
            invariant): RestrictionsFirst -> NoWarning and Stable, IgnoreNegation -> Inverse,
-           PipeFirst -> Inverse; PkgRelationMemo: SharedNested (+ DeepStore) -> MemoTransparent.
+           PipeFirst -> Inverse; PkgRelationMemo: SharedNested (+ DeepStore) -> MemoTransparent
+           (the quick tier leaves out RestrictionsFirst -> Stable and the DeepStore variant).
 binding:   (a) every CASE line of TLC (the structure and its expected token string) is concretized
                (package names [a-z0-9][a-z0-9+.-]*, versions valid per DESIGN D2, architecture
                names, qualifiers, lower-case profile names) and replayed:
@@ -32,7 +34,7 @@ history:   spec/PkgRelationMemo.tla models a memo layer between caller and refer
            reference Parse of its text whatever was parsed or edited before); SharedNested = TRUE
            (results share nested lists with the memo: the seeded change C13-seedB), alone or with
            DeepStore = TRUE (only the results of hits share), must make TLC report it.  Binding:
-           after EVERY round trip of (a) and (b) the returned structure is edited in place (append
+           after every round trip of (a) (quick tier: every 2nd case) and (b) the returned structure is edited in place (append
            to every arch list, reverse / extend every restriction formula, pop keys, reorder the
            outer lists), the same string is parsed again, that result is edited and the string
            parsed a third time, then a different relation sharing an alternative makes the round
@@ -65,8 +67,8 @@ import core
 
 MANIFEST = dict(
     technique="TLA+ specs PkgRelation + PkgRelationMemo (formatter as token sequence, the dependency regex as an automaton over token kinds with its optional groups in fixed order, the comma/pipe/blank/restriction splitters) model-checked by TLC over the closed space of all optional-part combinations x list shapes; every TLC case replayed into PkgRelation.str/parse_relations with concretized payloads; recorded executions on deeper random structures validated by TLC (TracePkgRelation); a memo layer with shared nested lists as history model, histories with in-place edits of returned structures replayed and recorded",
-    text="TLC enumerates every relation made of one focus atom -- all 3612 combinations of architecture qualifier, version constraint with each of the five operators, architecture lists of 1-2 plain or negated entries and restriction formulas of 1-2 groups of 1-2 plain or negated terms -- at every position of every list shape up to 3 conjuncts of 2 alternatives, surrounded by context atoms, and checks in each state Parse(Format(r)) = r, that the parser's warning fallback is never taken and Format(Parse(Format(r))) = Format(r); Parse is the one big regex written as an automaton over token kinds (name, qualifier, operator, version, arch, '!', profile, brackets, separators, blanks) with exactly the blank tolerance of the code. Each enumerated structure carries TLC's expected token string and is replayed into the real PkgRelation.str / parse_relations with package names over [a-z0-9+.-], versions with epoch, '~', '+' and hyphenated revisions, real architecture names, qualifiers and lower-case profile names: the parse must equal the structure exactly, without a warning, and formatting again must give the same string. In the other direction random deeper structures (5x4 atoms, 3 arch entries, 3x3 restriction terms) are formatted and parsed by the real code, the strings are tokenized independently and TLC must explain the parsed-back structure with Parse and find it equal to the input. The quick tier enumerates lists of up to 2 conjuncts of 2 alternatives with bare-name context atoms (54 171 structures), the thorough tier up to 3 x 2 with bare and fully-equipped context atoms (368 350 structures).",
-    note="Characters inside a payload token are sampled, not enumerated; profile names are lower case (DESIGN D3: the parser lower-cases them). The exact blanks written by the formatter are diagnostic only (drift). Trusted: TLC, the concretizer, the small context-sensitive tokenizer used for the recorded strings (a wrong tokenization is rejected by TLC, never accepted). A diagnostic leg (never an alarm) feeds strings with randomly changed blanks to the real parser and lets TLC predict the outcome, warning path included. The round trip is also checked as a history: a small TLA+ model of a memo layer with object identity (PkgRelationMemo) states that no earlier call or caller-side edit may influence Parse; after every replayed case and every recorded execution the returned structure is edited in place, the same string is parsed twice more and a relation sharing an alternative makes the round trip, under the same verdicts. Six spec-level negative controls and twelve corrupted control traces are required to fail in every run.",
+    text="TLC enumerates every relation made of one focus atom -- all 3612 combinations of architecture qualifier, version constraint with each of the five operators, architecture lists of 1-2 plain or negated entries and restriction formulas of 1-2 groups of 1-2 plain or negated terms -- at every position of every list shape up to 3 conjuncts of 2 alternatives, surrounded by context atoms, and checks in each state Parse(Format(r)) = r, that the parser's warning fallback is never taken and Format(Parse(Format(r))) = Format(r); Parse is the one big regex written as an automaton over token kinds (name, qualifier, operator, version, arch, '!', profile, brackets, separators, blanks) with exactly the blank tolerance of the code. Each enumerated structure carries TLC's expected token string and is replayed into the real PkgRelation.str / parse_relations with package names over [a-z0-9+.-], versions with epoch, '~', '+' and hyphenated revisions, real architecture names, qualifiers and lower-case profile names: the parse must equal the structure exactly, without a warning, and formatting again must give the same string. In the other direction random deeper structures (5x4 atoms, 3 arch entries, 3x3 restriction terms) are formatted and parsed by the real code, the strings are tokenized independently and TLC must explain the parsed-back structure with Parse and find it equal to the input. The quick tier enumerates lists of up to 2 conjuncts of 2 alternatives and 3 atoms with bare-name context atoms (39 727 structures), the thorough tier up to 3 x 2 with bare and fully-equipped context atoms (368 350 structures).",
+    note="Characters inside a payload token are sampled, not enumerated; profile names are lower case (DESIGN D3: the parser lower-cases them). The exact blanks written by the formatter are diagnostic only (drift). Trusted: TLC, the concretizer, the small context-sensitive tokenizer used for the recorded strings (a wrong tokenization is rejected by TLC, never accepted). A diagnostic leg (never an alarm) feeds strings with randomly changed blanks to the real parser and lets TLC predict the outcome, warning path included. The round trip is also checked as a history: a small TLA+ model of a memo layer with object identity (PkgRelationMemo) states that no earlier call or caller-side edit may influence Parse; after every replayed case and every recorded execution the returned structure is edited in place, the same string is parsed twice more and a relation sharing an alternative makes the round trip, under the same verdicts. Six spec-level negative controls (four in the quick tier) and twelve corrupted control traces are required to fail in every run.",
     design="5 (C13)")
 
 OPS = ["<<", "<=", "=", ">=", ">>"]
@@ -602,7 +604,7 @@ def deb822_path(ctx, s, r_py):
         ctx.drift("relations property raised %s: %s for %r" % (type(e).__name__, e, s))
 
 
-def check_case(ctx, rel_abs, codes, conc, diag, with_copy=True):
+def check_case(ctx, rel_abs, codes, conc, diag, with_copy=True, history=True):
     """one concretization of one TLC case; returns (message or None, produced string)"""
     r_py = build(rel_abs, conc)
     o = run_real(r_py)
@@ -619,9 +621,10 @@ def check_case(ctx, rel_abs, codes, conc, diag, with_copy=True):
                 diag["types"] = diag.get("types", 0) + 1
                 if diag["types"] <= 3:
                     ctx.drift("%s for %r" % (td, o["s"]))
-        msg = judge_history(r_py, o, run_history(r_py, o, with_copy=with_copy))
-        if msg:
-            msg = "[history] " + msg
+        if history:
+            msg = judge_history(r_py, o, run_history(r_py, o, with_copy=with_copy))
+            if msg:
+                msg = "[history] " + msg
     return msg, o["s"], r_py
 
 
@@ -681,12 +684,14 @@ def follow_lines(workdir, running):
             time.sleep(0.05)
 
 
-def spec_negative_controls(ctx):
+def spec_negative_controls(ctx, quick=False):
     """the invariants are not vacuous: each switch to the buggy design must make TLC report it"""
     with open(os.path.join(core.SPEC, "MC_PkgRelation_neg.cfg")) as f:
         base = f.read()
     done = []
     for const, inv in NEG_CONTROLS:
+        if quick and (const, inv) == ("RestrictionsFirst", "Stable"):
+            continue                # thorough tier only (JVM starts dominate the quick tier)
         cfg = base.replace("%s = FALSE" % const, "%s = TRUE" % const)
         assert cfg != base
         cfg = re.sub(r"(?m)^INVARIANT (?!%s$).*\n" % inv, "", cfg)
@@ -701,7 +706,7 @@ def spec_negative_controls(ctx):
     r = ctx.tlc("PkgRelationMemo", "MC_PkgRelationMemo.cfg", workers=1, java_opts=["-XX:ParallelGCThreads=2"])
     if r.violated:
         raise core.MachineryError("specification PkgRelationMemo violates %s\n%s" % (r.violated, r.tail))
-    for deep in ("FALSE", "TRUE"):
+    for deep in ("FALSE",) if quick else ("FALSE", "TRUE"):
         cfg = base.replace("SharedNested = FALSE", "SharedNested = TRUE").replace("DeepStore = FALSE", "DeepStore = " + deep)
         assert cfg != base
         cfg = re.sub(r"(?m)^INVARIANT (?!MemoTransparent$).*\n", "", cfg)
@@ -779,7 +784,8 @@ def _replay_chunk(lines):
         for canonical in plans:
             conc = canon if canonical else pool[(h ^ seed * 40503) % len(pool)]
             # the edited copy of r makes its own round trip for every 4th (thorough: 2nd) case
-            msg, s, r_py = check_case(dr, rel_abs, v["t"], conc, diag, with_copy=(h >> 3) % (4 if quick else 2) == 0)
+            msg, s, r_py = check_case(dr, rel_abs, v["t"], conc, diag, with_copy=(h >> 3) % (4 if quick else 2) == 0,
+                                      history=(not quick) or (h >> 7) % 2 == 0)
             res["nrun"] += 1
             if msg:
                 res["nfail"] += 1
@@ -844,7 +850,7 @@ def replay_cases(ctx, lines, quick, workers):
         ctx.sample(samples[h])
     ctx.extra["cases_replayed"] = tot["ncase"]
     ctx.extra["real_round_trips_in_replay"] = tot["nrun"]
-    ctx.extra["histories_in_replay"] = "every case: edit the parsed structure in place, parse the same string again, round trip of a relation sharing an alternative; every %s case also the round trip of an edited copy and str(r) again" % ("4th" if quick else "2nd")
+    ctx.extra["histories_in_replay"] = ("every 2nd case" if quick else "every case") + ": edit the parsed structure in place, parse the same string again, round trip of a relation sharing an alternative; every %s of these also the round trip of an edited copy and str(r) again" % ("4th" if quick else "2nd")
     ctx.extra["cases_failing"] = tot["nfail"]
     ctx.extra["cases_per_list_shape"] = dict(sorted(per["per_shape"].items()))
     ctx.extra["cases_per_optional_part_combination"] = dict(sorted(per["per_parts"].items()))
@@ -1228,8 +1234,8 @@ def run(ctx):
     consts = cfg_constants(cfg)
     ctx.extra["model_constants"] = consts
     ctx.assumptions += [
-        "closed structure space: one focus atom over every optional-part combination (arch lists <= %s, formulas <= %s groups x %s terms, all five operators) at every position of lists of <= %s conjuncts x %s alternatives; the other atoms are context atoms (%s)" % (
-            consts["MaxArch"], consts["MaxGroups"], consts["MaxTerms"], consts["MaxConj"], consts["MaxAlt"], consts["CtxKinds"]),
+        "closed structure space: one focus atom over every optional-part combination (arch lists <= %s, formulas <= %s groups x %s terms, all five operators) at every position of lists of <= %s conjuncts x %s alternatives (<= %s atoms); the other atoms are context atoms (%s)" % (
+            consts["MaxArch"], consts["MaxGroups"], consts["MaxTerms"], consts["MaxConj"], consts["MaxAlt"], consts["MaxAtoms"], consts["CtxKinds"]),
         "characters inside names / versions / architecture names / qualifiers / profile names are sampled (seeded), not enumerated; profile names are lower case (DESIGN D3)",
         "the exact blanks written by the formatter are diagnostic (drift), not part of the property",
         "trusted: TLC, the concretizer, the tokenizer of the recorded strings (written from the field syntax, not from the code's regexes)",
@@ -1250,13 +1256,13 @@ def _run_parallel(ctx, quick, cfg, mc_dir, workers):
         f_mc = pool.submit(core.run_tlc, "PkgRelation", cfg, mc_dir, workers=8, keep_raw=True, want_tags=set(),
                            timeout=900 if quick else 7200, java_opts=["-XX:ParallelGCThreads=4"])
         # 2. the invariants can fail
-        f_neg = pool.submit(spec_negative_controls, ctx)
+        f_neg = pool.submit(spec_negative_controls, ctx, quick)
         # 3. code -> spec: recorded executions on deeper structures, validated by TLC
         #    (recorded in a background thread as well: the main thread only merges replay results)
         unspecified_zone(ctx)
 
         def record_and_validate():
-            traces, metas = make_traces(ctx, *((1500, 400) if quick else (12000, 3000)))
+            traces, metas = make_traces(ctx, *((1000, 300) if quick else (12000, 3000)))
             return (traces, metas) + tuple(validate(ctx, traces, True, 2 if quick else 4))
         f_val = pool.submit(record_and_validate)
         # 4. spec -> code: every CASE line, replayed while TLC is still enumerating
